@@ -651,6 +651,9 @@ class Evaluator:
 
     def e_Subscript(self, node, env):
         base = self.eval(node.value, env)
+        if isinstance(base, tuple) and base and base[0] == "import":
+            # a table of another module indexed by a (symbolic) key: opaque row
+            return Opaque("%s[%s]" % (base[1], vkey(self.eval(node.slice, env))))
         return self.subscript(base, self.index_of(node.slice, env), node)
 
     def e_Attribute(self, node, env):
@@ -760,6 +763,29 @@ class Evaluator:
             return base.copy() if isinstance(base, Arr) else base
         if attr == "sum" and not args and not kwargs:
             return self.np_call("sum", [base], {}, node)
+        if attr == "sum" and not args and set(kwargs) == {"axis"}:
+            A = base if isinstance(base, Arr) else materialise(base)
+            ax = kwargs["axis"]
+            axes = [const_int(a) for a in (ax if isinstance(ax, (tuple, list)) else [ax])]
+            if A is None or any(a is None for a in axes):
+                return Opaque("%s.sum(axis=%s)" % (vkey(base), vkey(ax)))
+            rank = len(A.shape)
+            axes = sorted(a % rank for a in axes)
+
+            def red(d, depth):
+                if not isinstance(d, list):
+                    return scalar(d)
+                parts = [red(x, depth + 1) for x in d]
+                if depth in axes:
+                    def add(u, v):
+                        return [add(a, b) for a, b in zip(u, v)] if isinstance(u, list) else u + v
+                    tot = parts[0]
+                    for q in parts[1:]:
+                        tot = add(tot, q)
+                    return tot
+                return parts
+            r = red(A.data, 0)
+            return Arr(r) if isinstance(r, list) else r
         if attr in ("lower", "upper", "strip") and isinstance(base, str):
             return getattr(base, attr)()
         return Opaque("%s.%s(%s)" % (vkey(base), attr, ",".join(vkey(a) for a in args)))
